@@ -537,7 +537,8 @@ def do_replay(pid, path, ctx, props, impl, tables):
             print("  " + res)
             return 1
     if bad:
-        print("model and implementation disagree on this input")
+        print("VIOLATION property=%s replay=%s" % (pid, path))
+        print("  model and implementation disagree on this input")
         return 1
     print("replay passes")
     return 0
